@@ -31,8 +31,8 @@ CLAIMED = {
          "Primitives (dv_copy_sec, dv_swap_sec, dv_cmp_sec, util_cmp_sec, fp*_copy_sec): the recorded basic-block sequence must be "
          "identical for every selector bit and data pattern at every length 0..3*field digits. Regular routines (ep/ep2/ed *_mul_monty "
          "and *_mul_lwreg, eb_mul_lodah, bn_mxp_monty, fp_exp_monty, fb_exp_monty, g1/g2_mul_sec, gt_exp_sec on every parameter set of "
-         "the 255/256/381-bit builds): the group-level call trace must be identical for all scalars of the full bit length in ten "
-         "classes. Controls that must vary (dv_cmp, ep_mul_lwnaf, bn_mxp_slide) are run every time.",
+         "the 255/256/381-bit builds): the group-level call trace must be identical within every group of scalars of EQUAL bit length (the full length in ten "
+         "classes plus base-|x| digit classes for the GLS routines; shorter lengths incl. 1..65 bits and the lengths where k+n / k+2n change length). Controls that must vary (dv_cmp, ep_mul_lwnaf, bn_mxp_slide) are run every time.",
          "Trusts that instrumentation does not change control flow at basic-block/call level; says nothing about micro-architectural timing.",
          "execution-trace monitor (trace-pc basic-block traces + group-level call traces) over secret classes", "DESIGN.md §3 C20"),
  "C08": ("fault_enumeration",
@@ -112,7 +112,8 @@ CLAIMED = {
  "C15": ("exploration",
          "Lock-step history monitor: a Python Hash_DRBG (SP 800-90A, SHA-256) is advanced with the library over random histories of generate/reseed/instantiate; output bytes "
          "AND internal state (V, C, reseed counter, read from the context) must match after every call, incl. long histories across 2^8/2^15/2^16 generates; integer sampling "
-         "in range and equal to the model's use of the stream.", "Model validated on the CAVS vectors embedded in test_rand.c.",
+         "judged as the property states it: range / bit length, determinism (repeated from the saved generator state), post-state reachable by k >= 1 generate steps, "
+         "exact stream afterwards - not by a model of the current sampling algorithm.", "Model validated on the CAVS vectors embedded in test_rand.c.",
          "online trace monitor vs executable DRBG model (output + hidden state) + ASan/UBSan", "DESIGN.md §3 C15"),
  "C16": ("exploration",
          "Differential monitor vs a GF(2^m) model and an affine binary-curve model: every fb_* variant, fb2, eb group law with exceptional cases, halving, Frobenius, every eb_mul* "
@@ -120,12 +121,14 @@ CLAIMED = {
          "runtime differential monitor vs GF(2^m) and binary-curve models + ASan/UBSan", "DESIGN.md §3 C16"),
  "C17": ("exploration",
          "Differential monitor vs the complete twisted-Edwards affine law on Python integers (255-bit build): add/dbl/neg in affine/projective/extended coordinates for all operands "
-         "incl. points of order 1,2,4,8, every ed_mul*/fix/sim routine, compression round trips, ed_map in the subgroup.", "Trusts the affine Edwards model.",
+         "incl. points of order 1,2,4,8, every ed_mul*/fix/sim routine (separate output and in place, even and odd scalars), compression round trips, ed_map in the subgroup; repeated in a build with extended "
+         "coordinates as the default system, where T*Z = X*Y is required of every returned point and every multiplication result is fed back into add/sub/dbl/cmp/on_curve/write_bin.",
+         "Trusts the affine Edwards model.",
          "runtime differential monitor vs affine Edwards model + ASan/UBSan", "DESIGN.md §3 C17"),
  "C18": ("exploration",
          "Exhaustive enumeration of the parameter identifiers accepted by each built configuration (fp, fb, ep, eb, ed in the 256/255/381-bit builds; more sizes thorough): "
          "each set is read through the public getters and ~20 mathematical obligations are checked in Python (primality, irreducibility, generator on curve, prime order "
-         "annihilates it, Hasse bound, endomorphism and lattice constants, twist type/generator/order/Frobenius constants, embedding degree, level, Montgomery and map constants).",
+         "annihilates it, Hasse bound, the cofactor-clearing maps called with separate and in-place outputs, endomorphism and lattice constants, twist type/generator/order/Frobenius constants, embedding degree, level, Montgomery and map constants).",
          "Exhaustive over identifiers, not over anything else; probabilistic primality in the model.",
          "runtime enumeration of all built parameter sets checked against mathematical obligations", "DESIGN.md §3 C18"),
 }
